@@ -379,6 +379,7 @@ func areaCff(c *Ctx) {
 	c13GenCrossDefaults(c)
 	c13GenBlueGaps(c)
 	c13GenLargeWidths(c)
+	c13GenRound7(c)
 }
 
 // mutate returns a damaged copy of data (truncation, bit flip, byte overwrite, count inflation).
@@ -3172,6 +3173,122 @@ func c13GenLargeWidths(c *Ctx) {
 			}
 			c.Stat("large_widths", bucket(int(math.Abs(ws[len(ws)-1]))))
 			c13EmitFont(c, f, r.Chance(1, 2))
+		}
+	}
+}
+
+// ---------------------------------------------------------------------------------------
+// round 7: numbers beyond int32 in the Top DICT, FDSelect beyond the parser buffer, INDEX data of
+// exactly 2^8k-1 bytes
+
+func c13GenRound7(c *Ctx) {
+	r := c.Rng
+	plain := func(nFD int) *c13Font {
+		f := c13SweepFont(r, [5]int{4, 2, 0, 0, 0}, nFD, 2)
+		for p := range f.privs {
+			f.privs[p] = c13Priv{bs: 7, bf: 1, bscale: 0.039625}
+		}
+		return f
+	}
+	// (a) integral underline values at and beyond the int32 range (nine significant digits at most, so
+	// that the real operand is exact)
+	for _, v := range []float64{2147483647, -2147483648, -2147483647, 2147483650, -2147483650, 2147480000, 3e9, -5e9, 1e10, 4294967300,
+		-4294967300, 1e15, -1e15, 1e12, 2.5e9} {
+		for _, nFD := range []int{0, 2} {
+			if nFD == 2 && !r.Chance(1, 2) {
+				continue
+			}
+			f := plain(nFD)
+			if r.Bool() {
+				f.ulPos = v
+			} else {
+				f.ulThick = v
+			}
+			c.Stat("topdict_big_number", map[bool]string{true: "int32", false: "beyond int32"}[math.Abs(v) <= 2147483648])
+			c13EmitFont(c, f, true)
+		}
+	}
+	// (b) FDSelect for more glyphs than the parser buffer holds
+	for _, ng := range []int{1023, 1024, 1025, 1026, 3000} {
+		for pat := 0; pat < 3; pat++ {
+			fds := make([]int, ng)
+			label := ""
+			switch pat {
+			case 0:
+				label = "alternating (format 0)"
+				for g := range fds {
+					fds[g] = g % 3
+				}
+			case 1:
+				label = "blocks (format 3)"
+				for g := range fds {
+					fds[g] = g * 3 / ng
+				}
+			case 2:
+				label = "half alternating"
+				for g := range fds {
+					if g < ng/2 {
+						fds[g] = g % 2
+					} else {
+						fds[g] = 2
+					}
+				}
+			}
+			c.Stat("fdselect_long", fmt.Sprintf("%d %s", ng, label))
+			out := c.Case(Verdict, "cff.fdselect.enc", "fds="+ints(fds), true)
+			if !strings.HasPrefix(out, "panic") {
+				enc := c13HexMust(out)
+				c.Case(Verdict, "cff.fdselect.read", fmt.Sprintf("data=%s n=%d np=3", hx(enc), ng), true)
+				c.Case(Direct, "cff.fdselect.spec", fmt.Sprintf("data=%s n=%d want=%s", hx(enc), ng, ints(fds)), true)
+			}
+			if (pat == 2 || ng > 1100) && c.Tier != "thorough" {
+				continue
+			}
+			f := plain(3)
+			f.fds = fds
+			f.widths = make([]float64, ng)
+			f.cids = make([]int, ng)
+			for g := 0; g < ng; g++ {
+				f.widths[g] = float64(500 + g%2*100)
+				f.cids[g] = g * 2
+			}
+			c13EmitFont(c, f, true)
+		}
+	}
+	// (c) INDEX data of exactly 2^8k - 2, - 1, - 0 bytes, in one and in two objects; a font whose Name INDEX
+	// holds exactly 255 bytes
+	for _, total := range []int{254, 255, 256, 65534, 65535, 65536} {
+		for _, split := range []int{0, 100} {
+			arg := fmt.Sprintf("blobs=z%d", total)
+			if split > 0 {
+				arg = fmt.Sprintf("blobs=z%d,z%d", split, total-split)
+			}
+			c.Stat("index_body_exact", fmt.Sprint(total))
+			out := c.Case(Verdict, "cff.index.enc", arg, true)
+			if strings.HasPrefix(out, "ok:") && (total < 1000 || split == 0) {
+				var blobs [][]byte
+				if split > 0 {
+					blobs = [][]byte{make([]byte, split), make([]byte, total-split)}
+				} else {
+					blobs = [][]byte{make([]byte, total)}
+				}
+				enc := c13HexMust(out[3:])
+				want := fmt.Sprintf("%s;pos=%d", c13ShowBlobs(blobs), len(enc))
+				c.Case(Verdict, "cff.index.read", fmt.Sprintf("data=%s pos=0", hx(enc)), true)
+				c.Case(Direct, "cff.index.spec", fmt.Sprintf("data=%s pos=0 want=%s", hx(enc), want), true)
+			}
+		}
+	}
+	nameLens := []int{254, 255, 256}
+	if c.Tier == "thorough" {
+		nameLens = append(nameLens, 65534, 65535, 65536)
+	}
+	for _, nl := range nameLens {
+		for _, nFD := range []int{0, 2} {
+			f := plain(nFD)
+			f.name = strings.Repeat("N", nl)
+			c.Stat("name_index_body", fmt.Sprint(nl))
+			c13EmitFont(c, f, true)
 		}
 	}
 }
